@@ -101,6 +101,29 @@ func main() {
 				}
 			}
 		}
+		// PUT histories against a backend with state: the object is retrievable at the request
+		// path before the first PUT or not; PUT, then PUT again at the same request path; each
+		// time the backend answers with the request path, a different (renamed / case-folded)
+		// path, a path that needs escaping, no path, or a failure
+		{
+			req := "/u/cal/c/Meeting.ics"
+			retPaths := []string{req, "/u/cal/c/meeting.ics", "/u/cal/c/a b%41#é.ics", ""}
+			mkRet := func(k int, n int) *Outcome {
+				if k == len(retPaths) {
+					return &Outcome{Kind: "http", Code: 403}
+				}
+				return &Outcome{Kind: "found", Obj: &Obj{Path: retPaths[k], ETag: fmt.Sprintf("v%d", n), Sec: 1700000000 + int64(n)}}
+			}
+			for _, pre := range []bool{false, true} {
+				pre := pre
+				for k1 := 0; k1 <= len(retPaths); k1++ {
+					for k2 := 0; k2 <= len(retPaths); k2++ {
+						steps := []putStep{{data, mkRet(k1, 1)}, {data, mkRet(k2, 2)}}
+						jobs <- func() string { return runPutSeq(card, req, pre, steps) }
+					}
+				}
+			}
+		}
 		var vec func(prefix []int)
 		vec = func(prefix []int) {
 			if len(prefix) > 0 {
@@ -223,6 +246,31 @@ func main() {
 		pdata := genPayload(card, r)
 		ppath := coll + genSeg(r)
 		jobs <- func() string { return runPut(card, ppath, pdata, pret) }
+
+		// a random PUT history at one request path (see the exhaustive part)
+		if i%2 == 0 {
+			var steps []putStep
+			spath := coll + genSeg(r)
+			for n := 1 + r.Intn(3); n > 0; n-- {
+				var ret *Outcome
+				if r.Chance(1, 6) {
+					ret = genFail(r, card)
+				} else {
+					o := genObj(r, card, coll)
+					o.Data = ""
+					switch r.Intn(4) {
+					case 0:
+						o.Path = spath
+					case 1:
+						o.Path = ""
+					}
+					ret = &Outcome{Kind: "found", Obj: o}
+				}
+				steps = append(steps, putStep{genPayload(card, r), ret})
+			}
+			pre := r.Bool()
+			jobs <- func() string { return runPutSeq(card, spath, pre, steps) }
+		}
 	}
 
 	// ---- documents from the independent writer: two layouts of one content
